@@ -81,8 +81,12 @@ def isIfNoElseEndingInExit : Sk → Bool
 
 mutual
 /-- classes found in a list; `fixed` = exit jumps an enclosing branch's break detection has already converted; `isLast` tells whether
-    the element is the last item of the list; `before` = an earlier item of this list is an `if` without else ending in an exit jump -/
-def classesOf (ctx : SkCtx) (fixed : List Nat) (rescanned : Bool) (ifdepth : Nat) (before : Bool) (isLast : Bool) : Sk → List String
+    the element is the last item of the list; `before` = number of earlier items of this list that are an `if` without else ending in
+    an exit jump; `visits` = how often the heuristic scans the nearest enclosing loop / tell body (once with the flat list it is first
+    met in, once more for every if branch extracted around the loop; a loop lying directly in a loop body is scanned again on every
+    further visit of that body). Every visit converts the ifs of the list up to and including the next `if … exit repeat`: an if with
+    `visits` or more such ifs before it stays raw (F24). -/
+def classesOf (ctx : SkCtx) (fixed : List Nat) (visits : Nat) (ifdepth : Nat) (before : Nat) (isLast : Bool) : Sk → List String
   | .s => []
   | .x i =>
     if ctx = .loop then ["F23"]
@@ -92,20 +96,20 @@ def classesOf (ctx : SkCtx) (fixed : List Nat) (rescanned : Bool) (ifdepth : Nat
     else if ctx = .thn || ctx = .thnE then ["F126"]
     else []
   | .ifs t =>
-    (if before && !((ctx = .loop || ctx = .tell) && rescanned) then ["F24"] else [])
-      ++ classesOfL .thn (fixed ++ secondToLastExit (flatSkL t)) rescanned (ifdepth + 1) false t
+    (if before ≥ (if ctx = .loop || ctx = .tell then visits else 1) then ["F24"] else [])
+      ++ classesOfL .thn (fixed ++ secondToLastExit (flatSkL t)) visits (ifdepth + 1) 0 t
   | .ife t e =>
-    (if before && !((ctx = .loop || ctx = .tell) && rescanned) then ["F24"] else [])
-      ++ classesOfL .thnE (fixed ++ secondToLastExit (flatSkL t ++ [none])) rescanned (ifdepth + 1) false t
-      ++ classesOfL .els (fixed ++ secondToLastExit (flatSkL e)) rescanned (ifdepth + 1) false e
-  | .loop _ b => classesOfL .loop [] (rescanned || ifdepth > 0) 0 false b
-  | .tell b => classesOfL .tell [] (rescanned || ifdepth > 0) 0 false b
-def classesOfL (ctx : SkCtx) (fixed : List Nat) (rescanned : Bool) (ifdepth : Nat) (before : Bool) : List Sk → List String
+    (if before ≥ (if ctx = .loop || ctx = .tell then visits else 1) then ["F24"] else [])
+      ++ classesOfL .thnE (fixed ++ secondToLastExit (flatSkL t ++ [none])) visits (ifdepth + 1) 0 t
+      ++ classesOfL .els (fixed ++ secondToLastExit (flatSkL e)) visits (ifdepth + 1) 0 e
+  | .loop _ b => classesOfL .loop [] (1 + ifdepth + (if ifdepth = 0 then visits - 1 else 0)) 0 0 b
+  | .tell b => classesOfL .tell [] (1 + ifdepth + (if ifdepth = 0 then visits - 1 else 0)) 0 0 b
+def classesOfL (ctx : SkCtx) (fixed : List Nat) (visits : Nat) (ifdepth : Nat) (before : Nat) : List Sk → List String
   | [] => []
-  | [k] => classesOf ctx fixed rescanned ifdepth before true k
+  | [k] => classesOf ctx fixed visits ifdepth before true k
   | k :: k2 :: ks =>
-    classesOf ctx fixed rescanned ifdepth before false k
-      ++ classesOfL ctx fixed rescanned ifdepth (before || isIfNoElseEndingInExit k) (k2 :: ks)
+    classesOf ctx fixed visits ifdepth before false k
+      ++ classesOfL ctx fixed visits ifdepth (before + (if isIfNoElseEndingInExit k then 1 else 0)) (k2 :: ks)
 end
 
 def dedupS : List String → List String → List String
@@ -113,10 +117,10 @@ def dedupS : List String → List String → List String
   | x :: xs, acc => if acc.contains x then dedupS xs acc else dedupS xs (acc ++ [x])
 
 /-- the failure classes a handler body falls into (F23 exit repeat directly in a loop body; F138 directly in a tell block; F24 an if
-    after an `if … exit repeat` in a list that is scanned once; F25 / F126 exit repeat in an else / then branch at a position the break
+    after as many `if … exit repeat` in its list as the list is scanned; F25 / F126 exit repeat in an else / then branch at a position the break
     detection misses) -/
 def exitClasses (body : List Stmt) : List String :=
-  dedupS (classesOfL .top [] false 0 false (skOfL 0 body).1) []
+  dedupS (classesOfL .top [] 1 0 0 (skOfL 0 body).1) []
 
 /-! ### the one coincidence of the compile scheme: a `repeat while` written like a `repeat with`
 
